@@ -109,6 +109,21 @@ def gen_case(seed):
         for o in script:
             if o["side"] == "client" and r2.random() < 0.6:
                 o["t"] = r2.choice([0.0, 0.0, 0.001, 0.004])
+    r4 = random.Random("c06-kinds/%s" % seed)
+    if r4.random() < 0.35:
+        # the three per-stream transport parameters differ (RFC 9000 18.2; QuicConfiguration cannot express it, other
+        # stacks do it all the time): which one binds depends on who opened the stream and on its direction
+        for recv in ("server", "client"):
+            if "max_stream_data_" + recv in opts:
+                for which in ("bidi_local", "bidi_remote", "uni"):
+                    if r4.random() < 0.7:
+                        opts["msd_%s_%s" % (which, recv)] = r4.choice(LIMITS)
+        # answers on streams the peer opened exercise the bidi_local limit of the peer
+        for o in list(script):
+            if o["op"] == "write" and not (o["sid"] & 2) and r4.random() < 0.5:
+                other = "server" if o["side"] == "client" else "client"
+                script.append({"t": round(o["t"] + 0.3 + r4.random(), 4), "side": other, "op": "write", "sid": o["sid"],
+                               "n": r4.choice([1, 2, 1200, 1201, 5000, 70000]), "fin": r4.random() < 0.5})
     r3 = random.Random("c06-lower/%s" % seed)
     if r3.random() < 0.25:
         # the peer (its genuine keys, a fresh packet number) announces *lower* limits than before: MAX_DATA,
